@@ -99,6 +99,11 @@ Goal exists cfg pd text, dom_C10 CPY pd = true /\ known_C10 CPY [] pd = ["C10-py
     py_generate uc_exec cfg pd = Ok text /\ contains_sub (lit "Al[T] = List[T]") text = true.
 Proof. exact Props.C10.C10_python_generic_alias_refuted. Qed.
 Print Assumptions Props.C10.C10_python_generic_alias_refuted.
+Goal exists cfg pd text, dom_C10 CPY pd = true /\ known_C10 CPY [] pd = ["C10-python-generic-enum-arg"%string] /\
+    py_generate uc_exec cfg pd = Ok text /\ contains_sub (lit "Al = List[G[int]]") text = true /\
+    contains_sub (lit "G = GV") text = true.
+Proof. exact Props.C10.C10_python_generic_enum_arg_refuted. Qed.
+Print Assumptions Props.C10.C10_python_generic_enum_arg_refuted.
 Goal exists cfg pd text, known_C10 CPY [] pd = ["C10-python-empty-union"%string] /\
     py_generate uc_exec cfg pd = Ok text /\ contains_sub (lit "E = Union[]") text = true.
 Proof. exact Props.C10.C10_python_empty_union_refuted. Qed.
